@@ -6,7 +6,7 @@ from pathlib import Path
 HERE = Path(__file__).resolve().parent
 sys.path.insert(0, str(HERE))
 
-MODULES = ["g_const", "g_chain", "g_log", "g_resolve", "g_meta", "g_alloc", "g_emit", "g_finish", "g_statics", "g_errors", "g_progress"]  # filled below; each has NAME and generate(repo) -> str (Coq source)
+MODULES = ["g_const", "g_chain", "g_log", "g_resolve", "g_meta", "g_alloc", "g_emit", "g_finish", "g_statics", "g_errors", "g_progress", "g_posmap"]  # filled below; each has NAME and generate(repo) -> str (Coq source)
 
 
 def generate(repo, outdir, refdir):
